@@ -81,7 +81,17 @@ func (ex *Exec) finishBuiltin(st *State, pc *preparedCall, k func(*State, []Val)
 		for i, v := range a[1:] {
 			arr = app("store", arr, app("+", n, intLit(int64(i))), ex.convert(st, v, elemT).T)
 		}
-		one(Val{T: mkSlice(s, arr, app("+", n, intLit(int64(len(a)-1))), "false"), S: s, GoT: t})
+		// a named result with element-wise facts next to the store-term: goals with an existential over the
+		// result are then decided by plain instantiation instead of model-based quantifier instantiation
+		storeT := mkSlice(s, arr, app("+", n, intLit(int64(len(a)-1))), "false")
+		r := ex.freshVal("appended", t)
+		st.assume(eq(r.T, storeT))
+		st.assume(and(eq(app("s-len", r.T), app("+", n, intLit(int64(len(a)-1)))), not(app("s-nil", r.T))))
+		for i, v := range a[1:] {
+			st.assume(eq(app("select", app("s-arr", r.T), app("+", n, intLit(int64(i)))), ex.convert(st, v, elemT).T))
+		}
+		st.assume(fmt.Sprintf("(forall ((q_i Int)) (=> (and (<= 0 q_i) (< q_i %s)) (= (select (s-arr %s) q_i) (select (s-arr %s) q_i))))", n, r.T, cur.T))
+		one(r)
 	case "make":
 		t := ex.typeOf(call)
 		s := ex.sortOf(t)
@@ -109,7 +119,7 @@ func (ex *Exec) finishBuiltin(st *State, pc *preparedCall, k func(*State, []Val)
 	case "delete":
 		m := a[0]
 		key := ex.convert(st, a[1], under(ex.typeOf(call.Args[0])).(*types.Map).Key())
-		ex.assignTo(st, call.Args[0], mapDelete(m, key.T), func(st2 *State) { k(st2, nil) })
+		ex.assignTo(st, call.Args[0], ex.share(st, mapDelete(ex.share(st, m), key.T)), func(st2 *State) { k(st2, nil) })
 	case "clear":
 		t := ex.typeOf(call.Args[0])
 		s := ex.sortOf(t)
